@@ -288,11 +288,11 @@ def judge(ctx, mode, tpls, recs, summ, profiles):
         for f in r.get('findings', []):
             if mode == 'C03' and f['kind'] == 'fault':
                 continue      # faults are judged under C04
-            if mode == 'C04' and f['kind'] != 'fault' and not f['key'].startswith('C03|wrong-value'):
+            if mode == 'C04' and f['kind'] != 'fault' and not (f['key'].startswith('C03|wrong-value') or f['key'].startswith('C03|ok-but-oracle-err')):
                 continue
             key = f['key']
             if mode == 'C04' and f['kind'] != 'fault':
-                key = key.replace('C03|wrong-value', 'C04|wrong-number')
+                key = key.replace('C03|wrong-value', 'C04|wrong-number').replace('C03|ok-but-oracle-err', 'C04|fault-not-reported')
                 f = dict(f, key=key)
             groups.setdefault(key, []).append(f)
     findings = []
